@@ -149,12 +149,18 @@ def check(ctx):
     wraps = find("args = Task(None, typ, args)", du)
     ok = bool(wraps) and all(has_fact(inline_facts(du, n), "typ is list", False) is not None and not any("_return_collections" in unparse(e) for e, _ in cfg_of(du).facts(n)) for n, _ in wraps)
     ctx.ob("TAB.containers.type-nested", du, "unpack_collections rebuilds tuples/sets with their own type at every nesting level (not only at the top, where _return_collections is true)", ok, "" if ok else "tuples/sets nested inside other containers or keyword arguments come back as lists")
+    pp = find("pure = kwargs.pop('pure', pure)", cf)
+    tk_ = [c for c in calls(cf, "tokenize")]
+    ok = len(pp) == 1 and bool(tk_) and all(dominates(cf, pp[0][0], enclosing_stmt(c)) for c in tk_) and not [a for a in walk_no_nested(cf) if isinstance(a, ast.Assign) and unparse(a.targets[0]) == "pure" and a is not pp[0][0]]
+    ctx.ob("EFFECT.pure.per-call-wins", cf, "call_function: pure = kwargs.pop('pure', pure) -- the per-call keyword overrides the wrapper's setting, before the key is formed", ok, "" if ok else "a per-call pure= no longer overrides the setting the function was wrapped with: calls requested impure share one key (or pure ones get random keys)")
     dc = mod.func("Delayed.__call__")
     ok = bool(find("func = delayed(apply, pure=pure)", dc)) and all(unparse(r.value).startswith("func(self, args, kwargs") for r in returns(dc))
     ctx.ob("DELEG.delayed-call", dc, "calling a Delayed = delayed(apply)(self, args, kwargs)", ok)
 
 
 VARIANTS = [
+    (DEL, '    pure = kwargs.pop("pure", pure)', '    call_pure = kwargs.pop("pure", None)\n    if pure is None:\n        pure = call_pure', "EFFECT.pure.per-call-wins"),
+    (DEL, '    """Wrapper to create \'right\' version of operator given left version"""\n    return partial(_swap, method)', '    """Wrapper to create \'right\' version of operator given left version"""\n    if method is operator.add:\n        return method\n    return partial(_swap, method)', "ALG.operators.right"),
     (DEL, "        # Ensure output type matches input type\n        if typ is not list:\n            args = Task(None, typ, args)\n", "            # Ensure output type matches input type\n            if typ is not list:\n                args = Task(None, typ, args)\n", "TAB.containers.type-nested"),
     (DEL, "            self._key: Task(\n                self._key, getattr, TaskRef(self._obj._key), self._attr\n            )", "            self._key: (getattr, self._obj._key, self._attr)", "TYPED-STORE.attr-task"),
     (DEL, "tokenize(func_token, *args, pure=pure, **kwargs)", "tokenize(func_token, *args, pure=pure)", "TOKFLOW.call.token"),
